@@ -185,7 +185,7 @@ def ts_contains(ts, proto, port, addr_int):
                         int(ts.start_addr) <= addr_int, addr_int <= int(ts.end_addr))
 
 
-def h_acquire(pre, mode):
+def h_acquire(pre, mode, v6=False):
     """pre: 'fresh' (no IKE_SA: IKE_SA_INIT + IKE_AUTH) | 'established' (an IKE_SA with that peer exists: CREATE_CHILD_SA)"""
     from symx import core
     eng = core.engine()
@@ -196,6 +196,11 @@ def h_acquire(pre, mode):
     cd['bob']['protect'] = [dict(cd['bob']['protect'][0], index=7, my_subnet='10.2.0.0/16', peer_subnet='10.1.0.0/16', ip_proto='any', lifetime=111),
                             dict(cd['bob']['protect'][0], index=9, my_subnet='10.4.0.0/16', peer_subnet='10.3.0.0/16', ip_proto='udp', lifetime=222,
                                  mode='tunnel' if mode == 0 else 'transport')]
+    sel_src, sel_dst = ip_address('10.2.0.77'), ip_address('10.1.0.88')
+    if v6:
+        # IPv6 networks protected by a tunnel between IPv4 gateways: the family of the flow selector is not the family of the tunnel endpoints
+        cd['bob']['protect'][0].update(my_subnet='fd00:2::/32', peer_subnet='fd00:1::/32')
+        sel_src, sel_dst = ip_address('fd00:2::77'), ip_address('fd00:1::88')
     cd['carol'] = dict(cd['bob'], peer_addr='192.168.0.3', protect=[dict(cd['bob']['protect'][0], index=12, lifetime=333)])
     world.ENV.reset()
     conf = cfm.Configuration([world.IP1, world.IP2], cd)
@@ -271,7 +276,7 @@ def h_acquire(pre, mode):
     sport, dport = eng.sym_int('sport', 0, 65535), eng.sym_int('dport', 0, 65535)
     proto = eng.sym_int('proto', 0, 255)
     which_peer = c14_choice(eng, 'peer', [world.IP1, ip_address('192.168.0.3')])
-    data = acquire_datagram(eng, world.IP2, which_peer, ip_address('10.2.0.77'), ip_address('10.1.0.88'), sport, dport, proto, index)
+    data = acquire_datagram(eng, world.IP2, which_peer, sel_src, sel_dst, sport, dport, proto, index, version=6 if v6 else 4)
     header, msg, attributes = c14.MX.Xfrm.parse_message(data)
     n_before = len(ctl.ike_sas)
     try:
@@ -339,7 +344,9 @@ def h_acquire(pre, mode):
     if got_tr != want_tr:
         return {'class': ['acquire'], 'violation': f'proposal of the CHILD_SA being created {got_tr} is not the entry\'s {want_tr}'}
     tsis, tsrs = list(ch.tsi), list(ch.tsr)
-    a_s, a_d = int(ip_address('10.2.0.77')), int(ip_address('10.1.0.88'))
+    a_s, a_d = int(sel_src), int(sel_dst)
+    if v6 and picked[0] != 9 and any(int(t.ts_type) != 8 for t in tsis + tsrs):
+        return {'class': ['acquire'], 'violation': 'an ACQUIRE for an IPv6 flow (IPv6 networks behind IPv4 tunnel endpoints) is negotiated with selectors that are not IPv6 ranges'}
     # some offered selector pair covers the packet of the ACQUIRE ...
     P(core.sym_or(*[ts_contains(t, proto, sport, a_s) for t in tsis]), 'no offered TSi covers the packet of the ACQUIRE')
     P(core.sym_or(*[ts_contains(t, proto, dport, a_d) for t in tsrs]), 'no offered TSr covers the packet of the ACQUIRE')
@@ -487,6 +494,8 @@ def build_instances(tier):
     for pre in ('fresh', 'first_in_flight', 'first_established'):
         inst.append(Instance(f'acquire for a second connection to the same peer from another local address, {pre}', h_acquire_two_locals, (pre,), native=nat(h_acquire_two_locals),
                              must_reach=[('negotiating', lambda o: o == ['two_locals', 'negotiating']), ('ignored', lambda o: o == ['two_locals', 'ignored'])]))
+    inst.append(Instance('acquire fresh, IPv6 networks behind IPv4 tunnel endpoints', h_acquire, ('fresh', 1, True), native=nat(h_acquire),
+                         must_reach=[('negotiating', lambda o: o[:2] == ['acquire', 'negotiating'])]))
     for pre in ('fresh', 'established', 'in_flight', 'half_open_responder', 'rekeyed_old'):
         for mode in (0, 1):
             inst.append(Instance(f'acquire {pre} mode={mode}', h_acquire, (pre, mode), native=nat(h_acquire),
